@@ -544,7 +544,10 @@ class Routine(TimeThread, Stream):
             else:
                 self._iterator = None
                 self._terminal_value = self._SENTINEL
-                self._clock = clk.SystemClock  # Default clock.
+                if self.state == self.State.Done:
+                    # Otherwise it may still be scheduled on its clock (reset
+                    # while playing or paused), resume() has to find it there.
+                    self._clock = clk.SystemClock  # Default clock.
                 self.state = self.State.Init
 
     def pause(self):
